@@ -271,7 +271,7 @@ def gen_C09(rng, tier):
     # --- BackPropagate as an entry point: well-formed graphs of every kind (a sample of the gradient generators'
     # programs) must be accepted — an error or panic there is a precondition invented by the implementation
     import grad as _grad
-    for g in (_grad.gen_C07, _grad.gen_C02, _grad.gen_C01):
+    for g in (_grad.gen_C07, _grad.gen_C02, _grad.gen_C01, _grad.gen_C08):
         got = g(rng, 'quick')
         rng.shuffle(got)
         for q in got[:(40 if tier == 'quick' else 400)]:
